@@ -5,6 +5,8 @@ import (
 	"math"
 	"math/big"
 	"math/rand"
+	"os"
+	"path/filepath"
 	"regexp"
 	"strings"
 
@@ -34,9 +36,9 @@ func (c19) Meta() fw.Meta {
 			"non-trivial = shard containing accepted and rejected strings and at least 1000 round trips; distinct by shard.",
 		Assumptions: []string{
 			"strings in neither class (redundant leading zeros; fractional seconds, which the Go time parser accepts after the seconds field) are not judged for acceptance, only for the returned value when accepted",
-			"CLI flag types are unexported; their round trip is exercised through the commands in C12/C16",
+			"CLI flag value types are unexported; they are sampled through the real binary (printed method names, retention lists and timestamps must be accepted with their meaning, malformed/out-of-range ones rejected) and exercised further by C12/C16",
 		},
-		Obligations: []string{"duration_roundtrips", "timestamp_roundtrips", "list_roundtrips", "method_roundtrips", "duration_strings_accepted", "duration_strings_rejected", "mustreject_checked", "overflow_numerals_rejected", "archiveinfo_strings_accepted", "archiveinfo_nonmultiple_rejected", "timestamp_strings_accepted", "timestamp_out_of_range_rejected", "timestamp_bad_field_rejected", "timestamp_render_checked"},
+		Obligations: []string{"duration_roundtrips", "timestamp_roundtrips", "list_roundtrips", "method_roundtrips", "duration_strings_accepted", "duration_strings_rejected", "mustreject_checked", "overflow_numerals_rejected", "archiveinfo_strings_accepted", "archiveinfo_nonmultiple_rejected", "timestamp_strings_accepted", "timestamp_out_of_range_rejected", "timestamp_bad_field_rejected", "timestamp_render_checked", "cli_flag_checks"},
 		Exhaustive:  func(tier string) bool { return tier == "thorough" },
 	}
 }
@@ -417,6 +419,55 @@ func (c19) Run(c *fw.Ctx) {
 			"2020-01-01T24:00:00Z", "2020-01-01T23:60:00Z", "2020-01-01T23:59:60Z", "2020-01-01T23:59:59z", "2020-01-01t23:59:59Z", "2020-01-01T23:59:59", "2020-01-01T23:59:59+00:00", "2020-01-01T23:59:59+09:00", "2020-01-01 23:59:59Z",
 			"2020-1-1T23:59:59Z", "20200101T235959Z", "2020-01-01T23:59:59.5Z", "2020-01-01T23:59:59,5Z", " 2020-01-01T23:59:59Z", "2020-01-01T23:59:59Z ", "", "0", "now", "1577836800"} {
 			c19CheckTimestampString(c, s)
+		}
+	}
+
+	// ---- the CLI flag value types print/parse the same syntaxes (sampled through the real binary)
+	if idx == 1 {
+		dir := c.TmpDir()
+		l := model.Layout{Archs: []model.Arch{{Step: 60, Points: 120}, {Step: 3600, Points: 48}}, Method: 2, Xff: 0.5}
+		for m := 1; m <= 8; m++ {
+			p := filepath.Join(dir, fmt.Sprintf("flag-%d.wsp", m))
+			h, _ := wt.NewHeader(wt.Sum, 0.5, archiveInfoList(l))
+			res := runCLI(c, "generate", "-dest", p, "-fill=false", "-agg-method", wt.AggregationMethod(m).String(), "-x-files-factor", "0.5", "-retentions", h.ArchiveInfoList().String())
+			c.Count("cli_flag_checks", 1)
+			if (res.Exit == 0) != (m <= 6) {
+				c.Violationf("cli-flag-method", res.brief(), "generate -agg-method %s exited %d", wt.AggregationMethod(m).String(), res.Exit)
+			}
+			if res.Exit == 0 {
+				ph, _, _, err := rawOfFile(p)
+				if err != nil || int(ph.Method) != m || ph.Steps[0] != 60 || ph.Points[1] != 48 {
+					c.Violationf("cli-flag-meaning", res.brief(), "generate created a header that does not match the printed flag values")
+				}
+			}
+		}
+		fx := filepath.Join(dir, "flag-1.wsp")
+		for i := 0; i < 12; i++ {
+			a, b := uint32(r.Int63n(1<<32)), uint32(r.Int63n(1<<32))
+			if a > b {
+				a, b = b, a
+			}
+			res := runCLI(c, "view", "-src-base", dir, "-src", filepath.Base(fx), "-from", wt.Timestamp(a).String(), "-until", wt.Timestamp(b).String(), "-text-out", "")
+			c.Count("cli_flag_checks", 1)
+			if res.Exit != 0 {
+				c.Violationf("cli-flag-timestamp", res.brief(), "view rejected -from/-until given in the printed form of timestamps %d and %d", a, b)
+			}
+		}
+		for _, bad := range []string{"2200-01-01T00:00:00Z", "1969-12-31T23:59:59Z", "2106-02-07T06:28:16Z", "2020-01-01T00:00:00", "2020-01-01T00:00:00+09:00", "yesterday"} {
+			res := runCLI(c, "view", "-src-base", dir, "-src", filepath.Base(fx), "-from", "1970-01-01T00:00:01Z", "-until", bad, "-text-out", "")
+			c.Count("cli_flag_checks", 1)
+			if res.Exit == 0 {
+				c.Violationf("cli-flag-timestamp-accepts", res.brief(), "view accepted -until %q", bad)
+			}
+		}
+		for _, bad := range []string{"1m:2h,", "+1m:2h", "1m:90s", "1m", "2147483648s:4294967296s", "1x:2y"} {
+			p := filepath.Join(dir, "flag-bad.wsp")
+			res := runCLI(c, "generate", "-dest", p, "-fill=false", "-agg-method", "sum", "-retentions", bad)
+			c.Count("cli_flag_checks", 1)
+			if res.Exit == 0 {
+				c.Violationf("cli-flag-retentions-accepts", res.brief(), "generate accepted -retentions %q", bad)
+				os.Remove(p)
+			}
 		}
 	}
 
